@@ -45,3 +45,89 @@ def ast_type_name(ty_json_or_str):
     s = ty_json_or_str['s'] if isinstance(ty_json_or_str, dict) else ty_json_or_str
     m = re.match(r"^(?:typst_syntax::)?ast::(\w+)<", s)
     return m.group(1) if m else None
+
+
+# ---------------------------------------------------------------------------------------------
+# parent kind -> child kinds the parser can produce (transcribed from parser.rs; cross-checked against the
+# parent->child sets observed in the 188 error-free fixture files with tools/kindscan).  A kind missing here
+# can only make a checker less demanding.
+# ---------------------------------------------------------------------------------------------
+TRIVIA = ['Space', 'LineComment', 'BlockComment']
+COMMENTS = ['LineComment', 'BlockComment']
+MARKUP_EXPR = ['Text', 'Linebreak', 'Parbreak', 'Escape', 'Shorthand', 'SmartQuote', 'Strong', 'Emph', 'Raw', 'Link', 'Label', 'Ref',
+               'Heading', 'ListItem', 'EnumItem', 'TermItem', 'Equation']
+CODE_EXPR = ['Ident', 'None', 'Auto', 'Bool', 'Int', 'Float', 'Numeric', 'Str', 'CodeBlock', 'ContentBlock', 'Parenthesized', 'Array', 'Dict',
+             'Unary', 'Binary', 'FieldAccess', 'FuncCall', 'Closure', 'LetBinding', 'DestructAssignment', 'SetRule', 'ShowRule', 'Contextual',
+             'Conditional', 'WhileLoop', 'ForLoop', 'ModuleImport', 'ModuleInclude', 'LoopBreak', 'LoopContinue', 'FuncReturn', 'Raw', 'Equation',
+             'Label']
+MATH_EXPR = ['Math', 'MathText', 'MathIdent', 'MathShorthand', 'MathAlignPoint', 'MathDelimited', 'MathAttach', 'MathPrimes', 'MathFrac', 'MathRoot',
+             'Str', 'Escape', 'Linebreak', 'Text', 'FieldAccess', 'FuncCall']
+PATTERN = ['Ident', 'Underscore', 'Destructuring', 'Parenthesized']
+BIN_OPS = ['Plus', 'Minus', 'Star', 'Slash', 'And', 'Or', 'EqEq', 'ExclEq', 'Lt', 'LtEq', 'Gt', 'GtEq', 'Eq', 'In', 'PlusEq', 'HyphEq', 'StarEq', 'SlashEq', 'Not']
+
+
+def _u(*ls):
+    out = []
+    for l in ls:
+        for x in l:
+            if x not in out:
+                out.append(x)
+    return out
+
+
+CHILDREN = {
+    'Markup': _u(MARKUP_EXPR, CODE_EXPR, ['Space', 'Hash', 'Semicolon', 'Shebang'], COMMENTS),
+    'Code': _u(CODE_EXPR, ['Semicolon'], TRIVIA),
+    'CodeBlock': _u(['LeftBrace', 'Code', 'RightBrace'], TRIVIA),
+    'ContentBlock': ['LeftBracket', 'Markup', 'RightBracket'],
+    'Strong': ['Star', 'Markup'],
+    'Emph': ['Underscore', 'Markup'],
+    'Raw': ['RawDelim', 'RawLang', 'RawTrimmed', 'Text'],
+    'Ref': ['RefMarker', 'ContentBlock'],
+    'Heading': _u(['HeadingMarker', 'Markup'], TRIVIA),
+    'ListItem': _u(['ListMarker', 'Markup', 'Parbreak'], TRIVIA),
+    'EnumItem': _u(['EnumMarker', 'Markup', 'Parbreak'], TRIVIA),
+    'TermItem': _u(['TermMarker', 'Markup', 'Colon', 'Parbreak'], TRIVIA),
+    'Equation': _u(['Dollar', 'Math'], TRIVIA),
+    'Math': _u(MATH_EXPR, CODE_EXPR, ['Hash', 'Semicolon', 'LeftParen', 'RightParen', 'Comma', 'Colon', 'Dots'], TRIVIA),
+    # first and last child are the delimiters (MathText / MathShorthand / Escape ...), reached through open()/close(); in between:
+    'MathDelimited': _u(['Math'], TRIVIA),
+    'MathAttach': _u(MATH_EXPR, ['Underscore', 'Hat', 'Hash'], CODE_EXPR, TRIVIA),
+    'MathFrac': _u(MATH_EXPR, ['Slash', 'Hash'], CODE_EXPR, TRIVIA),
+    'MathRoot': _u(MATH_EXPR, ['Root', 'Hash'], CODE_EXPR, TRIVIA),
+    'MathPrimes': ['Prime'],
+    'Args': _u(['LeftParen', 'RightParen', 'Comma', 'Semicolon', 'Named', 'Spread', 'Hash'], CODE_EXPR, MATH_EXPR, TRIVIA),
+    'Array': _u(['LeftParen', 'RightParen', 'Comma', 'Spread', 'Hash'], CODE_EXPR, MATH_EXPR, TRIVIA),
+    'Dict': _u(['LeftParen', 'RightParen', 'Colon', 'Comma', 'Named', 'Keyed', 'Spread'], TRIVIA),
+    'Named': _u(['Ident', 'Colon', 'Hash'], CODE_EXPR, PATTERN, MATH_EXPR, TRIVIA),
+    'Keyed': _u(['Colon'], CODE_EXPR, TRIVIA),
+    'Spread': _u(['Dots', 'Hash'], CODE_EXPR, MATH_EXPR, TRIVIA),
+    'Unary': _u(['Plus', 'Minus', 'Not'], CODE_EXPR, TRIVIA),
+    'Binary': _u(BIN_OPS, CODE_EXPR, TRIVIA),
+    'FieldAccess': _u(['Dot', 'Ident', 'MathIdent'], CODE_EXPR, TRIVIA),
+    'FuncCall': _u(['Args', 'MathIdent'], CODE_EXPR),
+    'Closure': _u(['Ident', 'Params', 'Eq', 'Arrow'], CODE_EXPR, TRIVIA),
+    'Params': _u(['LeftParen', 'RightParen', 'Comma', 'Named', 'Spread'], PATTERN, TRIVIA),
+    'LetBinding': _u(['Let', 'Eq', 'Closure'], PATTERN, CODE_EXPR, TRIVIA),
+    'DestructAssignment': _u(['Eq'], PATTERN, CODE_EXPR, TRIVIA),
+    'Destructuring': _u(['LeftParen', 'RightParen', 'Comma', 'Named', 'Spread'], PATTERN, CODE_EXPR, TRIVIA),
+    'SetRule': _u(['Set', 'Args', 'If'], CODE_EXPR, TRIVIA),
+    'ShowRule': _u(['Show', 'Colon'], CODE_EXPR, TRIVIA),
+    'Contextual': _u(['Context'], CODE_EXPR, TRIVIA),
+    'Conditional': _u(['If', 'Else'], CODE_EXPR, TRIVIA),
+    'WhileLoop': _u(['While'], CODE_EXPR, TRIVIA),
+    'ForLoop': _u(['For', 'In'], PATTERN, CODE_EXPR, TRIVIA),
+    'ModuleImport': _u(['Import', 'As', 'Colon', 'Star', 'ImportItems', 'LeftParen', 'RightParen', 'Ident'], CODE_EXPR, TRIVIA),
+    'ImportItems': _u(['ImportItemPath', 'RenamedImportItem', 'Comma'], TRIVIA),
+    'ImportItemPath': _u(['Ident', 'Dot'], TRIVIA),
+    'RenamedImportItem': _u(['ImportItemPath', 'As', 'Ident'], TRIVIA),
+    'ModuleInclude': _u(['Include'], CODE_EXPR, TRIVIA),
+    'LoopBreak': ['Break'],
+    'LoopContinue': ['Continue'],
+    'FuncReturn': _u(['Return'], CODE_EXPR, TRIVIA),
+    'Parenthesized': _u(['LeftParen', 'RightParen'], CODE_EXPR, PATTERN, TRIVIA),
+}
+
+# tokens whose text can contain (or not) a line break: evaluated in both variants
+LINEBREAKABLE = {'Space', 'RawTrimmed'}
+ALWAYS_LINEBREAK = {'Parbreak'}
